@@ -21,6 +21,7 @@ type Result struct {
 	Output   string
 	QFAnswer string
 	QFModel  string
+	Retried  bool // timed out in the parallel pass and was run again
 }
 
 func (x *Exec) script(q *Query, quant bool, z3 bool, model bool) string {
@@ -105,7 +106,14 @@ func runSolver(bin string, args []string, script string, timeout time.Duration) 
 }
 
 // discharge runs the portfolio on one query.
-func (x *Exec) discharge(q *Query, tier string) *Result {
+func (x *Exec) discharge(q *Query, tier string) *Result { return x.dischargeSeed(q, tier, 0) }
+
+// dischargeSeed runs the portfolio with a given z3 random seed (0: the default).
+func (x *Exec) dischargeSeed(q *Query, tier string, seed int) *Result {
+	var sa []string
+	if seed != 0 {
+		sa = []string{fmt.Sprintf("smt.random_seed=%d", seed), fmt.Sprintf("sat.random_seed=%d", seed)}
+	}
 	res := &Result{Q: q}
 	to := 10 * time.Second
 	if tier == "thorough" {
@@ -121,7 +129,7 @@ func (x *Exec) discharge(q *Query, tier string) *Result {
 	}
 	// 1. quantifier-free pass
 	qf := x.script(q, false, true, true)
-	a, out, s := runSolver("z3-new", []string{"-in", "-t:3000"}, qf, 4*time.Second)
+	a, out, s := runSolver("z3-new", append([]string{"-in", "-t:3000"}, sa...), qf, 4*time.Second)
 	res.Seconds += s
 	res.QFAnswer = a
 	if a == "unsat" {
@@ -136,14 +144,14 @@ func (x *Exec) discharge(q *Query, tier string) *Result {
 		return res
 	}
 	full := x.script(q, true, true, false)
-	a, out, s = runSolver("z3-new", []string{"-in", "-t:" + ms}, full, to)
+	a, out, s = runSolver("z3-new", append([]string{"-in", "-t:" + ms}, sa...), full, to)
 	res.Seconds += s
 	if a == "unsat" || a == "error" {
 		res.Answer, res.Backend, res.Output = a, "z3-new", out
 		return res
 	}
 	first := a
-	a, out, s = runSolver("z3", []string{"-in", "-t:" + ms}, full, to)
+	a, out, s = runSolver("z3", append([]string{"-in", "-t:" + ms}, sa...), full, to)
 	res.Seconds += s
 	if a == "unsat" {
 		res.Answer, res.Backend = "unsat", "z3-4.8.12"
@@ -183,6 +191,44 @@ func (x *Exec) dischargeAll(qs []*Query, tier string, workers int) []*Result {
 	}
 	close(ch)
 	wg.Wait()
+	// A time-out may be an artefact of sixteen solvers sharing the machine with whatever
+	// else runs, and both time-outs and `unknown` depend on the solver's search order:
+	// such queries get one more attempt, four at a time and with another random seed,
+	// before they count.  Only `unsat` from the second attempt changes the outcome.
+	var again []int
+	for i, r := range res {
+		if r != nil && !r.Q.Smoke && (r.Answer == "timeout" || r.Answer == "unknown") {
+			again = append(again, i)
+		}
+	}
+	if len(again) > 0 && len(again) <= 64 {
+		ch2 := make(chan int)
+		var wg2 sync.WaitGroup
+		for w := 0; w < 4; w++ {
+			wg2.Add(1)
+			go func() {
+				defer wg2.Done()
+				for i := range ch2 {
+					first := res[i]
+					r := x.dischargeSeed(qs[i], tier, 7)
+					if r.Answer != "unsat" {
+						// report the first attempt (its model, if any, came from the default configuration)
+						first.Seconds += r.Seconds
+						first.Retried = true
+						continue
+					}
+					r.Seconds += first.Seconds
+					r.Retried = true
+					res[i] = r
+				}
+			}()
+		}
+		for _, i := range again {
+			ch2 <- i
+		}
+		close(ch2)
+		wg2.Wait()
+	}
 	return res
 }
 
